@@ -168,7 +168,12 @@ def main(argv=None):
             if controls:
                 for r in controls['detail']:
                     print('  control %-50s %s %s' % (r['name'][:50], r['status'], r.get('by', r.get('why', ''))))
-        rc = core.finish(ctx, known, t0, controls=controls, seed=seed,
+        evidence_dir = None
+        if os.path.realpath(a.repo) != os.path.realpath(os.environ.get('VERIF_REPO', '/repo')) or os.environ.get('VERIF_EVIDENCE_DIR'):
+            # analysing a scratch copy (seeded change, refactor variant): never overwrite the evidence of /repo
+            import tempfile
+            evidence_dir = os.environ.get('VERIF_EVIDENCE_DIR') or os.path.join(tempfile.gettempdir(), 'sa_evidence_scratch')
+        rc = core.finish(ctx, known, t0, controls=controls, seed=seed, evidence_dir=evidence_dir,
                          level=getattr(mod, 'LEVEL', 'other'),
                          explanation=getattr(mod, 'EXPLANATION', ''),
                          trusted=getattr(mod, 'TRUSTED', None),
